@@ -4,7 +4,7 @@
 (* named components).  One state machine with three kinds of states:       *)
 (*                                                                         *)
 (*  swz  - every index pattern (1..4 letters) over every source length     *)
-(*         2..4 and every letter set starts in phase "fresh" holding the   *)
+(*         1..4 and every letter set starts in phase "fresh" holding the   *)
 (*         tagged vector <<11,22,33,44>>; a writable pattern takes one     *)
 (*         SwizzleWrite step that assigns <<5,6,7,8>> through it and ends  *)
 (*         in phase "written".                                             *)
@@ -12,6 +12,7 @@
 (*         vec2 / vec3 / vec4 parts) for result lengths 1..4 consumes its  *)
 (*         arguments left to right, appending the components it takes.     *)
 (*  mat  - every pair of matrix shapes (81) for mat<C,R>(mat<C2,R2>).      *)
+(*  qua  - the quaternion constructor forms.                               *)
 (*                                                                         *)
 (* Invariants = the laws of the property text: name <-> index tuple is a   *)
 (* bijection, a read returns the named components in the named order,      *)
@@ -30,12 +31,15 @@ NewVals == <<5, 6, 7, 8>>
 Prefix(s, n) == [i \in 1..n |-> s[i]]
 
 SwzStates == UNION {UNION {UNION {{[kind |-> "swz", sl |-> sl, set |-> set, idx |-> idx, v |-> Prefix(Tags, sl), ph |-> "fresh"]
-                                   : idx \in Patterns(sl, rl)} : rl \in 1..4} : sl \in 2..4} : set \in SetNames}
+                                   : idx \in Patterns(sl, rl)} : rl \in 1..4} : sl \in 1..4} : set \in SetNames}
 CtorStates == UNION {{[kind |-> "ctor", n |-> n, parts |-> p, k |-> 0, out |-> << >>] : p \in VecShapes(n)} : n \in 1..4}
 Shapes == (2..4) \X (2..4)
 MatStates == {[kind |-> "mat", C |-> a[1], R |-> a[2], C2 |-> b[1], R2 |-> b[2]] : a \in Shapes, b \in Shapes}
 
-Init == st \in SwzStates \cup CtorStates \cup MatStates
+QuaKinds == {"wxyz", "static_wxyz", "sv", "conv", "xyzw"}
+QuaStates == {[kind |-> "qua", form |-> f] : f \in QuaKinds}
+
+Init == st \in SwzStates \cup CtorStates \cup MatStates \cup QuaStates
 
 SwizzleWrite == /\ st.kind = "swz" /\ st.ph = "fresh" /\ Writable(st.idx)
                 /\ st' = [st EXCEPT !.v = SwzWrite(st.idx, st.v, Prefix(NewVals, Len(st.idx))), !.ph = "written"]
@@ -120,12 +124,22 @@ InvMatColumns ==            \* C*R scalars in column-major order = C columns of 
                  cols == [c \in 1..st.C |-> [w \in 1..st.R |-> 200 + (c - 1) * st.R + w]]
              IN EvalSources(MatScalarSources(st.C, st.R), scal, 0, 1) = EvalSources(MatColSources(st.C, st.R), cols, 0, 1)
 
+(* quaternions: listed w, x, y, z; every form takes each result component from exactly one argument component *)
+IsQua == st.kind = "qua"
+QuaArgs(f) == CASE f \in {"wxyz", "static_wxyz"} -> << <<"w">>, <<"x">>, <<"y">>, <<"z">> >>
+                [] f = "xyzw" -> << <<"x">>, <<"y">>, <<"z">>, <<"w">> >>
+                [] f = "sv"   -> << <<"w">>, <<"x", "y", "z">> >>
+                [] f = "conv" -> << <<"w", "x", "y", "z">> >>
+InvQua == IsQua => /\ EvalSources(QuaSources(st.form), QuaArgs(st.form), "0", "1") = <<"w", "x", "y", "z">>
+                   /\ \A i \in 1..4 : QuaSources(st.form)[i].k = "arg"
+                   /\ \A i, j \in 1..4 : i # j => QuaSources(st.form)[i] # QuaSources(st.form)[j]
+
 ----------------------------------------------------------------------------
 (* non-vacuity: the enumeration has the sizes the property text quantifies over *)
 Perm(n, k) == IF k > n THEN 0 ELSE CASE k = 1 -> n [] k = 2 -> n * (n - 1) [] k = 3 -> n * (n - 1) * (n - 2) [] k = 4 -> n * (n - 1) * (n - 2) * (n - 3)
 ASSUME \A rl \in 1..4 : Cardinality(Patterns(4, rl)) = 4^rl                       \* 4 + 16 + 64 + 256
-ASSUME Cardinality(SwzStates) = 3 * ((2 + 4 + 8 + 16) + (3 + 9 + 27 + 81) + (4 + 16 + 64 + 256))
-ASSUME \A sl \in 2..4 : \A rl \in 1..4 : Cardinality({p \in Patterns(sl, rl) : Writable(p)}) = Perm(sl, rl)
+ASSUME Cardinality(SwzStates) = 3 * ((1 + 1 + 1 + 1) + (2 + 4 + 8 + 16) + (3 + 9 + 27 + 81) + (4 + 16 + 64 + 256))
+ASSUME \A sl \in 1..4 : \A rl \in 1..4 : Cardinality({p \in Patterns(sl, rl) : Writable(p)}) = Perm(sl, rl)
 ASSUME <<Cardinality(VecShapes(1)), Cardinality(VecShapes(2)), Cardinality(VecShapes(3)), Cardinality(VecShapes(4))>> = <<5, 9, 16, 36>>
 ASSUME Cardinality(MatStates) = 81
 
@@ -138,7 +152,8 @@ Line ==
                              \o NameOf(st.set, st.idx) \o " " \o (IF Writable(st.idx) THEN "1" ELSE "0")
       [] st.kind = "ctor" -> "ctor " \o ToString(st.n) \o " " \o Join(st.parts)
       [] st.kind = "mat"  -> "mat " \o ToString(st.C) \o " " \o ToString(st.R) \o " " \o ToString(st.C2) \o " " \o ToString(st.R2)
-IsInitial == (st.kind = "swz" /\ st.ph = "fresh") \/ (st.kind = "ctor" /\ st.k = 0) \/ st.kind = "mat"
+      [] st.kind = "qua"  -> "qua " \o st.form
+IsInitial == (st.kind = "swz" /\ st.ph = "fresh") \/ (st.kind = "ctor" /\ st.k = 0) \/ st.kind \in {"mat", "qua"}
 Emit == ("OUT" \in DOMAIN IOEnv /\ IsInitial) =>
             Serialize(Line \o "\n", IOEnv.OUT, [format |-> "TXT", charset |-> "UTF-8", openOptions |-> <<"WRITE", "CREATE", "APPEND">>]).exitValue = 0
 =============================================================================
